@@ -23,10 +23,11 @@ type vfStreamCase struct {
 	Back    int  // messages in the opposite direction (B -> A) at the same time
 	Asks    int  // concurrent Asks A -> B
 	Gap     time.Duration // pause between messages (0: burst); > 0 makes a steady stream
+	StopAfter bool        // the sending system is stopped right after the last Tell returned: everything Told before must still arrive
 }
 
 func (c vfStreamCase) String() string {
-	return fmt.Sprintf("plan=%s burst=%d senders=%d sizes=%v back=%d asks=%d gap=%v", c.Plan, c.Burst, c.Senders, c.Sizes, c.Back, c.Asks, c.Gap)
+	return fmt.Sprintf("plan=%s burst=%d senders=%d sizes=%v back=%d asks=%d gap=%v stop-after-last-tell=%v", c.Plan, c.Burst, c.Senders, c.Sizes, c.Back, c.Asks, c.Gap, c.StopAfter)
 }
 
 // vfCheckStream: the per-sender sequence monitor. lostOnlyIfLaterSeen: a gap counts as loss only if a later message
@@ -121,6 +122,15 @@ func vfRunStream(c vfStreamCase, seed uint64) (viols []vfViol, info string, inco
 	toA := a.remoteSink(b)
 	sent := map[int]int{}
 	var wg sync.WaitGroup
+	if c.StopAfter {
+		// the property speaks of messages Told over a healthy connection: establish it first (a Tell that still has to
+		// dial when Stop begins is reported as a dead letter on the sender, it is not lost silently)
+		a.sys.Tell(toB, vfNewNetMsg(99, 1, 10, false))
+		sent[99] = 1
+		if !vfWaitCount(b.sink, 1, 3*time.Second) {
+			return nil, "", "primer message did not arrive"
+		}
+	}
 	per := c.Burst / c.Senders
 	for s := 0; s < c.Senders; s++ {
 		n := per
@@ -171,7 +181,14 @@ func vfRunStream(c vfStreamCase, seed uint64) (viols []vfViol, info string, inco
 		sent[900+i] = 1
 	}
 	wg.Wait()
-	total := int64(c.Burst + c.Asks)
+	stoppedA := false
+	if c.StopAfter {
+		stoppedA = true
+		if err := a.stop(); err != nil {
+			add("c11-stop", "Stop", "system A: %v", err)
+		}
+	}
+	total := int64(c.Burst + c.Asks + sent[99])
 	okB := vfWaitCount(b.sink, total, 5*time.Second)
 	okA := vfWaitCount(a.sink, int64(c.Back), 5*time.Second)
 	maxStall := stall.end()
@@ -208,8 +225,10 @@ func vfRunStream(c vfStreamCase, seed uint64) (viols []vfViol, info string, inco
 		inconclusive = fmt.Sprintf("scheduler stall of %v during the run: %v", maxStall, viols[0].Detail)
 		viols = nil
 	}
-	if err := a.stop(); err != nil {
-		add("c11-stop", "Stop", "system A: %v", err)
+	if !stoppedA {
+		if err := a.stop(); err != nil {
+			add("c11-stop", "Stop", "system A: %v", err)
+		}
 	}
 	if err := b.stop(); err != nil {
 		add("c11-stop", "Stop", "system B: %v", err)
@@ -233,6 +252,10 @@ func vfStreamCases(thorough bool) []vfStreamCase {
 		vfStreamCase{Plan: "splits", Burst: 4, Senders: 2, Sizes: []int{65536, 1 << 20}, Asks: 2},
 		vfStreamCase{Plan: "coalesce", Burst: 3000, Senders: 8, Sizes: []int{0, 7, 64}, Back: 500},
 		vfStreamCase{Plan: "asis", Burst: 5000, Senders: 8, Sizes: []int{0, 7, 64, 300}, Back: 1000, Asks: 50},
+		// Tell ... Tell, Stop: what was Told over the healthy link before Stop still arrives, completely and in order
+		vfStreamCase{Plan: "asis", Burst: 1, Senders: 1, Sizes: []int{100}, StopAfter: true},
+		vfStreamCase{Plan: "asis", Burst: 500, Senders: 2, Sizes: []int{0, 100, 4096}, StopAfter: true},
+		vfStreamCase{Plan: "splits", Burst: 3000, Senders: 4, Sizes: []int{7, 64, 300}, StopAfter: true},
 	)
 	if thorough {
 		for _, plan := range []string{"asis", "splits", "coalesce"} {
